@@ -102,7 +102,7 @@ Definition plain_tok (tk : tok) : bool :=
   negb (is_semi tk) && negb (is_go tk)
   && negb (kw_among tk [w_DECLARE; w_BEGIN; w_END_IF; w_END_FOR; w_END_WHILE]).
 
-Definition I0 (st : sstate) : Prop := begin_depth st = 0 /\ in_case st = false.
+Definition I0 (st : sstate) : Prop := begin_depth st = 0 /\ case_depth st = 0.
 
 Lemma csl_plain st tk :
   plain_tok tk = true -> I0 st ->
@@ -291,8 +291,8 @@ Qed.
 (* ================================================================================================
    C17: CREATE ... BEGIN ... END; bodies
    ================================================================================================ *)
-Definition SB (st : sstate) (b : Z) (ic : bool) : Prop :=
-  is_create st = true /\ begin_depth st = b /\ in_case st = ic.
+Definition SB (st : sstate) (b : Z) (ic : Z) : Prop :=
+  is_create st = true /\ begin_depth st = b /\ case_depth st = ic.
 
 (* keyword spelled w (any case, any keyword sub-type) that is not a GO terminator *)
 Definition kwtok (tk : tok) (ws : list (list N)) : bool := kw_among tk ws && negb (is_go tk).
@@ -393,8 +393,8 @@ Proof.
 Qed.
 
 Lemma csl_end st tk b :
-  kwtok tk [w_END] = true -> 1 <= b -> SB st b false ->
-  exists st', change_splitlevel st (fst tk) (snd tk) = (st', -1) /\ SB st' (b - 1) false.
+  kwtok tk [w_END] = true -> 1 <= b -> SB st b 0 ->
+  exists st', change_splitlevel st (fst tk) (snd tk) = (st', -1) /\ SB st' (b - 1) 0.
 Proof.
   intros Hw Hb (Hc & Hd & Hi). kw_lemma Hw. rewrite orb_false_r in *.
   match goal with H : text_eqb (unified _) w_END = true |- _ => unfold w_END in H; know_word H end.
@@ -402,18 +402,20 @@ Proof.
   repeat split; auto. lia.
 Qed.
 
-Lemma csl_end_case st tk b :
-  kwtok tk [w_END] = true -> SB st b true ->
-  exists st', change_splitlevel st (fst tk) (snd tk) = (st', -1) /\ SB st' b false.
+Lemma csl_end_case st tk b ic :
+  kwtok tk [w_END] = true -> 1 <= ic -> SB st b ic ->
+  exists st', change_splitlevel st (fst tk) (snd tk) = (st', -1) /\ SB st' b (ic - 1).
 Proof.
-  intros Hw (Hc & Hd & Hi). kw_lemma Hw. rewrite orb_false_r in *.
+  intros Hw Hic (Hc & Hd & Hi). kw_lemma Hw. rewrite orb_false_r in *.
   match goal with H : text_eqb (unified _) w_END = true |- _ => unfold w_END in H; know_word H end.
-  rewrite ?andb_false_r. cbn. rewrite Hi. cbn. eexists; split; [reflexivity|]. cbn. repeat split; auto; lia.
+  rewrite ?andb_false_r. cbn. rewrite Hi.
+  replace (ic =? 0) with false by (symmetry; apply Z.eqb_neq; lia).
+  cbn. eexists; split; [reflexivity|]. cbn. repeat split; auto; lia.
 Qed.
 
 Lemma csl_case st tk b ic :
   kwtok tk [w_CASE] = true -> 1 <= b -> SB st b ic ->
-  exists st', change_splitlevel st (fst tk) (snd tk) = (st', 1) /\ SB st' b true.
+  exists st', change_splitlevel st (fst tk) (snd tk) = (st', 1) /\ SB st' b (ic + 1).
 Proof.
   intros Hw Hb (Hc & Hd & Hi). kw_lemma Hw. rewrite orb_false_r in *.
   match goal with H : text_eqb (unified _) w_CASE = true |- _ => unfold w_CASE in H; know_word H end.
@@ -464,8 +466,8 @@ Proof.
 Qed.
 
 (* the body language: a bracket language over ( ), BEGIN END, IF/WHILE/FOR-openers with their END
-   forms, CASE END (not nested), neutral tokens and semicolons.  [full = false]: the inside of a
-   CASE expression, where BEGIN/END and CASE must not occur. *)
+   forms, CASE END (NESTED to any depth since the fix of finding F39: the splitter counts the open CASE expressions),
+   neutral tokens and semicolons.  [full = false]: the inside of a CASE expression, where BEGIN/END must not occur. *)
 Inductive Blk : bool -> list tok -> Prop :=
 | B_nil f : Blk f []
 | B_tok f tk r : neutral_tok tk = true -> Blk f r -> Blk f (tk :: r)
@@ -478,9 +480,9 @@ Inductive Blk : bool -> list tok -> Prop :=
 | B_begin o c q r :
     kwtok o [w_BEGIN] = true -> kwtok c [w_END] = true ->
     Blk true q -> Blk true r -> Blk true (o :: q ++ c :: r)
-| B_case o c q r :
+| B_case f o c q r :
     kwtok o [w_CASE] = true -> kwtok c [w_END] = true ->
-    Blk false q -> Blk true r -> Blk true (o :: q ++ c :: r).
+    Blk false q -> Blk f r -> Blk f (o :: q ++ c :: r).
 
 Lemma kwtok_go tk ws : kwtok tk ws = true -> is_go tk = false.
 Proof. unfold kwtok. intros H. apply andb_true_iff in H. destruct H as [_ H]. apply negb_true_iff, H. Qed.
@@ -518,7 +520,7 @@ Proof.
   apply ttype_eqb_eq in H1. apply text_eqb_eq in H2. rewrite H1, H2. auto.
 Qed.
 
-Record BodySt (st : pstate) (b L : Z) (ic : bool) : Prop :=
+Record BodySt (st : pstate) (b L : Z) (ic : Z) : Prop :=
   { bs_s : SB (ss st) b ic; bs_l : level st = L; bs_c : consume_ws st = false }.
 
 (* processing a block from inside an open BEGIN (b >= 1, level >= 1) never terminates a statement
@@ -535,13 +537,13 @@ Ltac ih_here IH rest b L ic :=
   end.
 
 Lemma blk_run : forall f q, Blk f q ->
-  forall st rest b L ic, (f = true -> ic = false) -> 1 <= b -> 1 <= L -> BodySt st b L ic ->
+  forall st rest b L ic, (f = true -> ic = 0) -> 0 <= ic -> 1 <= b -> 1 <= L -> BodySt st b L ic ->
   exists st', PG st (q ++ rest) = PG st' rest /\ BodySt st' b L ic /\ acc st' = rev q ++ acc st.
 Proof.
   induction 1 as [f | f tk r Hn _ IH | f tk r Hs _ IH
                  | f o c q r Ho Hc _ IHq _ IHr | f o c q r Ho Hc _ IHq _ IHr
-                 | o c q r Ho Hc _ IHq _ IHr | o c q r Ho Hc _ IHq _ IHr];
-    intros st rest b L ic Hf Hb HL [HS Hl Hcw].
+                 | o c q r Ho Hc _ IHq _ IHr | f o c q r Ho Hc _ IHq _ IHr];
+    intros st rest b L ic Hf Hic Hb HL [HS Hl Hcw].
   - exists st. split; [reflexivity|]. split; [constructor; auto|reflexivity].
   - (* neutral token *)
     destruct (csl_neutral _ _ _ _ Hn Hb HS) as (s' & E & HS').
@@ -549,7 +551,7 @@ Proof.
     { unfold neutral_tok in Hn. split_bools. auto. }
     cbn [app]. rewrite (PG_noconsume _ _ _ Hcw).
     rewrite (step_quiet _ _ _ _ Hcw E (proj1 Hg) (or_introl (proj2 Hg))).
-    ih_here IH rest b L ic; [exact Hf|exact Hb|exact HL|apply mk_body; [exact HS'|lia|reflexivity]|].
+    ih_here IH rest b L ic; [exact Hf|exact Hic|exact Hb|exact HL|apply mk_body; [exact HS'|lia|reflexivity]|].
     exists st'. split; [exact E'|]. split; [exact HB'|].
     rewrite Ha'. cbn [acc rev]. rewrite <- app_assoc. reflexivity.
   - (* semicolon at level >= 1 *)
@@ -558,7 +560,7 @@ Proof.
       by (apply csl_other; auto using semi_not_kw).
     cbn [app]. rewrite (PG_noconsume _ _ _ Hcw).
     rewrite (step_quiet _ _ _ _ Hcw E (semi_not_go _ Hs)) by (right; lia).
-    ih_here IH rest b L ic; [exact Hf|exact Hb|exact HL|apply mk_body; [exact HS|lia|reflexivity]|].
+    ih_here IH rest b L ic; [exact Hf|exact Hic|exact Hb|exact HL|apply mk_body; [exact HS|lia|reflexivity]|].
     exists st'. split; [exact E'|]. split; [exact HB'|].
     rewrite Ha'. cbn [acc rev]. rewrite <- app_assoc. reflexivity.
   - (* parentheses *)
@@ -567,13 +569,13 @@ Proof.
     rewrite (step_quiet _ _ _ _ Hcw (csl_lparen _ _ Ho) Hg1 (or_introl Hs1)).
     rewrite <- app_assoc. cbn [app].
     ih_here IHq (c :: r ++ rest) b (L + 1) ic;
-      [exact Hf|exact Hb|lia|apply mk_body; [exact HS|lia|reflexivity]|].
+      [exact Hf|exact Hic|exact Hb|lia|apply mk_body; [exact HS|lia|reflexivity]|].
     destruct HB' as [HS1 Hl1 Hc1].
     rewrite E'. cbn [app]. rewrite (PG_noconsume _ _ _ Hc1).
     assert (Hnl : is_lparen c = false).
     { destruct (is_lparen c) eqn:X; [|reflexivity]. apply lparen_not_rparen in X. congruence. }
     rewrite (step_quiet _ _ _ _ Hc1 (csl_rparen _ _ Hnl Hc) Hg2 (or_introl Hs2)).
-    ih_here IHr rest b L ic; [exact Hf|exact Hb|exact HL|apply mk_body; [exact HS1|lia|reflexivity]|].
+    ih_here IHr rest b L ic; [exact Hf|exact Hic|exact Hb|exact HL|apply mk_body; [exact HS1|lia|reflexivity]|].
     exists st'0. split; [exact E'0|]. split; [exact HB'|].
     rewrite Ha'0. cbn [acc]. rewrite Ha'. cbn [acc rev].
     rewrite rev_app_distr. cbn [rev]. rewrite <- !app_assoc. reflexivity.
@@ -583,45 +585,45 @@ Proof.
     rewrite (step_quiet _ _ _ _ Hcw Eo (kwtok_go _ _ Ho) (or_introl (kwtok_not_semi _ _ Ho))).
     rewrite <- app_assoc. cbn [app].
     ih_here IHq (c :: r ++ rest) b (L + 1) ic;
-      [exact Hf|exact Hb|lia|apply mk_body; [exact HSo|lia|reflexivity]|].
+      [exact Hf|exact Hic|exact Hb|lia|apply mk_body; [exact HSo|lia|reflexivity]|].
     destruct HB' as [HS1 Hl1 Hc1].
     rewrite E'. cbn [app]. rewrite (PG_noconsume _ _ _ Hc1).
     destruct (csl_close _ _ _ _ Hc HS1) as (s2 & Ec & HSc).
     rewrite (step_quiet _ _ _ _ Hc1 Ec (kwtok_go _ _ Hc) (or_introl (kwtok_not_semi _ _ Hc))).
-    ih_here IHr rest b L ic; [exact Hf|exact Hb|exact HL|apply mk_body; [exact HSc|lia|reflexivity]|].
+    ih_here IHr rest b L ic; [exact Hf|exact Hic|exact Hb|exact HL|apply mk_body; [exact HSc|lia|reflexivity]|].
     exists st'0. split; [exact E'0|]. split; [exact HB'|].
     rewrite Ha'0. cbn [acc]. rewrite Ha'. cbn [acc rev].
     rewrite rev_app_distr. cbn [rev]. rewrite <- !app_assoc. reflexivity.
   - (* BEGIN ... END *)
-    assert (ic = false) by auto. subst ic.
+    assert (ic = 0) by auto. subst ic.
     destruct (csl_begin _ _ _ _ Ho HS) as (s1 & Eo & HSo).
     cbn [app]. rewrite (PG_noconsume _ _ _ Hcw).
     rewrite (step_quiet _ _ _ _ Hcw Eo (kwtok_go _ _ Ho) (or_introl (kwtok_not_semi _ _ Ho))).
     rewrite <- app_assoc. cbn [app].
-    ih_here IHq (c :: r ++ rest) (b + 1) (L + 1) false;
-      [reflexivity|lia|lia|apply mk_body; [exact HSo|lia|reflexivity]|].
+    ih_here IHq (c :: r ++ rest) (b + 1) (L + 1) 0;
+      [reflexivity|lia|lia|lia|apply mk_body; [exact HSo|lia|reflexivity]|].
     destruct HB' as [HS1 Hl1 Hc1].
     rewrite E'. cbn [app]. rewrite (PG_noconsume _ _ _ Hc1).
     destruct (csl_end _ _ (b + 1) Hc ltac:(lia) HS1) as (s2 & Ec & HSc).
     rewrite (step_quiet _ _ _ _ Hc1 Ec (kwtok_go _ _ Hc) (or_introl (kwtok_not_semi _ _ Hc))).
     replace (b + 1 - 1) with b in HSc by lia.
-    ih_here IHr rest b L false; [reflexivity|exact Hb|exact HL|apply mk_body; [exact HSc|lia|reflexivity]|].
+    ih_here IHr rest b L 0; [reflexivity|lia|exact Hb|exact HL|apply mk_body; [exact HSc|lia|reflexivity]|].
     exists st'0. split; [exact E'0|]. split; [exact HB'|].
     rewrite Ha'0. cbn [acc]. rewrite Ha'. cbn [acc rev].
     rewrite rev_app_distr. cbn [rev]. rewrite <- !app_assoc. reflexivity.
-  - (* CASE ... END *)
-    assert (ic = false) by auto. subst ic.
+  - (* CASE ... END, nested to any depth: the counter goes up and comes back *)
     destruct (csl_case _ _ _ _ Ho Hb HS) as (s1 & Eo & HSo).
     cbn [app]. rewrite (PG_noconsume _ _ _ Hcw).
     rewrite (step_quiet _ _ _ _ Hcw Eo (kwtok_go _ _ Ho) (or_introl (kwtok_not_semi _ _ Ho))).
     rewrite <- app_assoc. cbn [app].
-    ih_here IHq (c :: r ++ rest) b (L + 1) true;
-      [discriminate|exact Hb|lia|apply mk_body; [exact HSo|lia|reflexivity]|].
+    ih_here IHq (c :: r ++ rest) b (L + 1) (ic + 1);
+      [discriminate|lia|exact Hb|lia|apply mk_body; [exact HSo|lia|reflexivity]|].
     destruct HB' as [HS1 Hl1 Hc1].
     rewrite E'. cbn [app]. rewrite (PG_noconsume _ _ _ Hc1).
-    destruct (csl_end_case _ _ _ Hc HS1) as (s2 & Ec & HSc).
+    destruct (csl_end_case _ _ _ (ic + 1) Hc ltac:(lia) HS1) as (s2 & Ec & HSc).
     rewrite (step_quiet _ _ _ _ Hc1 Ec (kwtok_go _ _ Hc) (or_introl (kwtok_not_semi _ _ Hc))).
-    ih_here IHr rest b L false; [reflexivity|exact Hb|exact HL|apply mk_body; [exact HSc|lia|reflexivity]|].
+    replace (ic + 1 - 1) with ic in HSc by lia.
+    ih_here IHr rest b L ic; [exact Hf|exact Hic|exact Hb|exact HL|apply mk_body; [exact HSc|lia|reflexivity]|].
     exists st'0. split; [exact E'0|]. split; [exact HB'|].
     rewrite Ha'0. cbn [acc]. rewrite Ha'. cbn [acc rev].
     rewrite rev_app_distr. cbn [rev]. rewrite <- !app_assoc. reflexivity.
